@@ -464,7 +464,6 @@ def disturbed_by_later_level(blocks, idx):
 # ---------------------------------------------------------------------------------------------------------
 
 def check(case):
-    import numpy as np
     import pandapower as pp
     import pandapower.control as ct
     res = Result()
